@@ -560,7 +560,7 @@ def c10_sweep_task(shard, tid, n, order, via, us_stride, us_offset, seed,
 
 
 # ======================= C13: image / preimage =======================
-def c13_sweep_task(shard, tid, npairs, order, seed, mode):
+def c13_sweep_task(shard, tid, npairs, order, seed, mode, count_T=40):
     """Pairs (p0,q0), (p1,q1), ...: unprimed p_i, primed q_i.
 
     npairs = 1: exhaustive (all 16 relations x all 16 sets x all qvars
@@ -584,6 +584,32 @@ def c13_sweep_task(shard, tid, npairs, order, seed, mode):
     if mode == 'all':
         transs = refs
         operands = refs
+    elif mode == 'structured':
+        # relations ite(v, f, g) with f, g functions of two variables, and sets
+        # over the unprimed variables: the shapes in which the two operands of
+        # the simultaneous descent share sub-functions
+        def tt_of(fn):
+            t = 0
+            for a in range(1 << n):
+                env = {nm: bool((a >> k) & 1) for k, nm in enumerate(names)}
+                if fn(env):
+                    t |= 1 << a
+            return t
+        two = []
+        for x, y in itertools.combinations(names, 2):
+            for code in range(16):
+                two.append(lambda e, x=x, y=y, code=code: bool((code >> (2 * e[x] + e[y])) & 1))
+        tts = set()
+        for _ in range(400):
+            v = rng.choice(names)
+            f, g = rng.choice(two), rng.choice(two)
+            tts.add(tt_of(lambda e: f(e) if e[v] else g(e)))
+        transs = [af.ref_of[t] for t in rng.sample(sorted(tts), min(count_T, len(tts)))]
+        ops = set()
+        for code in range(16):
+            for (x, y) in ([tuple(unp)] if len(unp) == 2 else []) + [tuple(pri)] * (len(pri) == 2):
+                ops.add(tt_of(lambda e, x=x, y=y, code=code: bool((code >> (2 * e[x] + e[y])) & 1)))
+        operands = [af.ref_of[t] for t in sorted(ops)] + rng.sample(refs, 16)
     else:
         transs = rng.sample(refs, 24)
         operands = rng.sample(refs, 256)
@@ -594,7 +620,7 @@ def c13_sweep_task(shard, tid, npairs, order, seed, mode):
             if adjacent:
                 for Q in subsets(pri):
                     k += 1
-                    if mode != 'all' and rng.random() < 0.75:
+                    if mode == 'sample' and rng.random() < 0.75:
                         continue
                     ren = dict(zip(unp, pri))
                     if npairs > 1 and rng.random() < 0.3:
@@ -629,7 +655,7 @@ def c13_sweep_task(shard, tid, npairs, order, seed, mode):
                 if not set(unp) <= set(Q) and mode != 'all':
                     continue
                 k += 1
-                if mode != 'all' and rng.random() < 0.8:
+                if mode != 'all' and rng.random() < (0.8 if mode == 'sample' else 0.5):
                     continue
                 ren = dict(zip(pri, unp))
                 route = ['bdd', 'autoref'][k % 2]
